@@ -41,7 +41,7 @@ RULE = (
     "mode, dictionary); non-trivial = the dictionary selects an overload, a pre-set/default option or a template."
 )
 ASSUMPTIONS = ["graphs are built from importable module-level functions in explicit dataset(f) form; the decorator form is the recorded finding pickle-decorator-form-dataset"]
-FLOORS = {"warm_memo_roundtrips": (6, 18), "warm_memo_children": (6, 18), "wired_together_checks": (12, 12), "roundtrips": (120, 120), "originals_compared_with_pristine_interpreter": (120, 120), "outcomes_compared": (5000, 5000), "child_interpreters": (30, 90), "post_load_registrations": (36, 36), "registrations_refused_alike": (60, 60), "post_dump_registrations_on_the_original": (36, 36),
+FLOORS = {"warm_memo_roundtrips": (6, 18), "warm_memo_children": (6, 18), "wired_together_checks": (12, 12), "roundtrips": (132, 132), "originals_compared_with_pristine_interpreter": (132, 132), "outcomes_compared": (5500, 5500), "child_interpreters": (30, 90), "post_load_registrations": (36, 36), "registrations_refused_alike": (72, 72), "post_dump_registrations_on_the_original": (36, 36),
           "unpickled_register_schedules": (150, 1500)}
 SHARDS_QUICK = 2
 SHARDS_THOROUGH = 4
